@@ -437,9 +437,6 @@ theorem record_writeAt_prefix (f : File) (sz i : Nat) (m : List Nat) (hm : m.len
 
 /-! ### the record-list view -/
 
-/-- the complete records of a file (a torn tail is not a record). -/
-def recs (f : File) (sz : Nat) : List (List Nat) := (List.range (f.length / sz)).map (record f sz)
-
 theorem length_recs (f : File) (sz : Nat) : (recs f sz).length = f.length / sz := by simp [recs]
 
 theorem getElem?_recs (f : File) (sz k : Nat) :
@@ -571,5 +568,7 @@ theorem recommendUpdate_range (cur : Nat) (delta : Int) (hd : delta ≠ 0) :
     · rw [if_neg h2, toInt8_int8Byte _ (by omega) (by omega)]; omega
 
 theorem brdSz_pos : 0 < brdSz := by decide
+
+theorem mark_le_dirSz : safeDelMark.length ≤ dirSz := by decide
 
 end PttVerif.C05
